@@ -791,3 +791,393 @@ Proof.
   - intros i nd Hg. specialize (Hn i nd Hg). unfold node_okb in Hn. rewrite !andb_true_iff in Hn. destruct Hn as (_ & Hn).
     apply Bool.eqb_prop. exact Hn.
 Qed.
+
+(* ---- a name of a node without entries goes away: the states stay related ------------------------------------ *)
+Lemma no_self_edge h p c : Inv_heap h -> alookup str_eqb c (children h p) <> Some p.
+Proof.
+  intros Hinv Hl. apply (@I5_acyclic _ Hinv p). exists p, c. split; [apply reach_refl|]. unfold edge. apply al_in. exact Hl.
+Qed.
+
+Lemma orel_unlink (o o' : ofs) (s s' : fsys) (sv : sview) (ps : list str) (c : str) (p i : nat) (px x : onode) :
+  ohyps s sv -> orel o s sv -> gcs (ps ++ [c]) ->
+  twalk (f_heap s) (v_root (sv_view sv)) ps = Some p -> ofind o (rpath ps) = Some (p, px) ->
+  node_is_dir (f_heap s) p = true -> alookup str_eqb c (children (f_heap s) p) = Some i ->
+  ofind o (rpath (ps ++ [c])) = Some (i, x) -> children (f_heap s) i = [] ->
+  o_os o' = o_os o -> o_user o' = o_user o -> o_umask o' = o_umask o ->
+  o_index o' = aremove str_eqb (rpath (ps ++ [c])) (o_index o) ->
+  o_heap o' = o_del_child (o_release (o_heap o) i) p c ->
+  f_heap s' = delete_node (remove_child (f_heap s) p c) i ->
+  orel o' s' sv.
+Proof.
+  intros Hh Hr Hg Hw Hfp Hpd Hci Hfi Hleaf Eos Eus Eum Eidx Eheap Esh.
+  pose proof (or_len _ _ _ Hr) as Hlen. set (h := f_heap s) in *.
+  apply ofind_some in Hfp. destruct Hfp as [Hip Hop]. apply ofind_some in Hfi. destruct Hfi as [Hii Hoi].
+  assert (Hip' : i <> p) by (intros ->; exact (no_self_edge h p c (oh_inv _ _ Hh) Hci)).
+  assert (Hplt : p < length h). { rewrite node_is_dir_get in Hpd. destruct (get h p) eqn:E; [|discriminate]. eapply get_lt; eauto. }
+  assert (Hgp : exists chp m, get h p = Some (NDir chp m)) by (apply is_dir_get; exact Hpd).
+  destruct Hgp as (chp & mp & Hgp).
+  pose proof (or_node _ _ _ Hr p) as Hnp. rewrite Hop in Hnp. fold h in Hnp. rewrite Hgp in Hnp. cbn [nrel] in Hnp.
+  destruct Hnp as (y & [= <-] & Hpxd & Hpxc & Hpxm).
+  assert (Hilt : i < length h). { apply (I1_valid (oh_inv _ _ Hh) p c i). unfold edge. apply al_in. exact Hci. }
+  destruct (get_some h i Hilt) as (ni & Hgi).
+  pose proof (or_node _ _ _ Hr i) as Hni. rewrite Hoi in Hni. fold h in Hni. rewrite Hgi in Hni.
+  set (h1 := upd h p (NDir (aremove str_eqb c chp) mp)).
+  assert (Hh1 : remove_child h p c = h1) by (unfold remove_child; rewrite Hgp; reflexivity).
+  assert (Hg1i : get h1 i = Some ni) by (unfold h1; rewrite get_upd; destruct (Nat.eqb_spec i p); [congruence|exact Hgi]).
+  set (ni' := match ni with NDir _ m => NDir [] m | NFile d k id m => NFile d (k - 1)%Z id m | NSym _ m => NSym [] m end).
+  assert (Hheap' : f_heap s' = upd h1 i ni').
+  { rewrite Esh. fold h. rewrite Hh1. unfold delete_node. rewrite Hg1i. unfold ni'. destruct ni; reflexivity. }
+  assert (Hni'ch : node_children ni' = []) by (unfold ni'; destruct ni; reflexivity).
+  assert (Hrootv : v_root (sv_view sv) < length h).
+  { pose proof (oh_root _ _ Hh) as H. rewrite node_is_dir_get in H. fold h in H. destruct (get h (v_root (sv_view sv))) eqn:E; [|discriminate]. eapply get_lt; eauto. }
+  assert (Hch : forall d c1, d < length h ->
+            alookup str_eqb c1 (children (f_heap s') d) = if Nat.eqb d p && str_eqb c1 c then None else alookup str_eqb c1 (children h d)).
+  { intros d c1 Hd. rewrite Hheap', children_upd. unfold h1 at 1. rewrite upd_length.
+    destruct (Nat.eqb_spec d i) as [->|Hdi].
+    - destruct (Nat.ltb_spec i (length h)); [|lia]. rewrite Hni'ch. destruct (Nat.eqb_spec i p); [congruence|]. cbn [andb alookup].
+      rewrite Hleaf. reflexivity.
+    - unfold h1. rewrite children_upd. destruct (Nat.eqb_spec d p) as [->|Hdp]; cbn [andb]; [|reflexivity].
+      destruct (Nat.ltb_spec p (length h)); [|lia]. cbn [node_children]. rewrite (children_get h p), Hgp. cbn [node_children].
+      destruct (str_eqb_spec c1 c) as [->|Hc1]; [apply al_aremove_eq|apply al_aremove_neq; exact Hc1]. }
+  constructor.
+  - rewrite Eos. apply (or_os _ _ _ Hr).
+  - rewrite Eus. apply (or_user _ _ _ Hr).
+  - rewrite Eum. apply (or_umask _ _ _ Hr).
+  - rewrite Eidx. unfold ikey. rewrite al_aremove_neq; [apply (or_slash _ _ _ Hr)|].
+    intros E. symmetry in E. revert E. apply rpath_not_slash. apply gcs_ok. exact Hg.
+  - intros cs' Hcs'. rewrite Eidx.
+    rewrite (twalk_edit h (f_heap s') (v_root (sv_view sv)) p ps c None (oh_inv _ _ Hh) Hrootv Hw Hpd Hch (fun _ _ (E : None = Some _) => match E with end) cs' [] _ eq_refl)
+      by (apply strip_none; intros t E; destruct ps; discriminate).
+    cbn [app]. destruct (strip (ps ++ [c]) cs') as [[|y l]|] eqn:Es.
+    + apply strip_some in Es. rewrite app_nil_r in Es. subst cs'. unfold ikey. apply al_aremove_eq.
+    + apply strip_some in Es. subst cs'. unfold ikey. rewrite al_aremove_neq.
+      * fold (ikey (o_index o) (rpath ((ps ++ [c]) ++ y :: l))). rewrite (or_index _ _ _ Hr _ Hcs'). fold h.
+        rewrite twalk_app, twalk_snoc, Hw, Hci. cbn [twalk]. rewrite Hleaf. reflexivity.
+      * intros E. apply rpath_inj in E; [|apply gcs_ok; exact Hcs'|apply gcs_ok; exact Hg].
+        apply (f_equal (@length str)) in E. rewrite !app_length in E. cbn [length] in E. lia.
+    + unfold ikey. rewrite al_aremove_neq.
+      * apply (or_index _ _ _ Hr _ Hcs').
+      * intros E. apply rpath_inj in E; [|apply gcs_ok; exact Hcs'|apply gcs_ok; exact Hg]. subst cs'.
+        rewrite <- (app_nil_r (ps ++ [c])) in Es at 2. rewrite strip_app in Es. discriminate.
+  - rewrite Eheap, Hheap'. unfold o_del_child, o_release. rewrite Hoi.
+    rewrite (oget_oupd _ _ _ _ _ Hoi). destruct (Nat.eqb_spec i p); [congruence|]. rewrite Hop.
+    rewrite !oupd_length, !upd_length. unfold h1. rewrite upd_length. exact Hlen.
+  - intros j. rewrite Eheap, Hheap'. unfold o_del_child, o_release. rewrite Hoi.
+    assert (Hop1 : oget (oupd (o_heap o) i (on_remove x)) p = Some px).
+    { rewrite (oget_oupd _ _ _ _ _ Hoi). destruct (Nat.eqb_spec i p); [congruence|exact Hop]. }
+    rewrite Hop1. rewrite (oget_oupd _ _ _ _ _ Hop1). rewrite get_upd. unfold h1 at 1. rewrite upd_length.
+    destruct (Nat.eqb_spec p j) as [<-|Hpj].
+    + destruct (Nat.eqb_spec p i); [congruence|]. unfold h1. rewrite get_upd, Nat.eqb_refl.
+      destruct (Nat.ltb_spec p (length h)); [|lia]. cbn [nrel]. eexists. split; [reflexivity|].
+      unfold on_dir. cbn [on_with_ch on_meta on_ch]. split; [exact Hpxd|]. split; [rewrite Hpxc; reflexivity|exact Hpxm].
+    + rewrite (oget_oupd _ _ _ _ _ Hoi). destruct (Nat.eqb_spec j i) as [->|Hji].
+      * rewrite Nat.eqb_refl. destruct (Nat.ltb_spec i (length h)); [|lia]. unfold ni'.
+        destruct ni as [chi mi|d k id mi|t mi]; cbn [nrel] in Hni |- *.
+        -- destruct Hni as (y & Ey & Hd & _ & Hm). inversion Ey; subst y. eexists. split; [reflexivity|].
+           unfold on_dir in *. cbn [on_remove on_meta on_ch]. auto.
+        -- destruct Hni as (y & Ey & Hd & Hc & Hk & Hm & Hdata). inversion Ey; subst y. eexists. split; [reflexivity|].
+           unfold on_dir in Hd.
+           unfold on_dir. cbn [on_remove on_meta on_ch on_nlink on_data].
+           split; [exact Hd|]. split; [reflexivity|]. split; [rewrite Hk; reflexivity|]. split; [exact Hm|].
+           intros Hk1. apply Hdata. apply (file_named s sv Hh p c i d k id mi Hci Hgi).
+        -- exact I.
+      * destruct (Nat.eqb_spec i j); [congruence|]. unfold h1. rewrite get_upd.
+        destruct (Nat.eqb_spec j p); [congruence|]. apply (or_node _ _ _ Hr j).
+Qed.
+
+(* ---- Remove (a file, an empty directory; the error cases) ------------------------------------------------------- *)
+Lemma may_delete_admin h u par victim isdir : us_admin u = true -> node_is_dir h par = true ->
+  may_delete h par victim isdir u =
+    if isdir then (if node_is_dir h victim then None else Some ENOTDIR)
+    else (if node_is_dir h victim then Some EISDIR else None).
+Proof.
+  intros Ha Hd. unfold may_delete. rewrite (kperm_dir_admin h u Ha par 3 Hd). unfold sticky_refuses. rewrite Ha.
+  cbn [negb andb]. rewrite andb_false_r. reflexivity.
+Qed.
+
+Theorem orefa_step_remove (o : ofs) (s : fsys) (sv : sview) (ps : list str) (c : str) :
+  ohyps s sv -> orel o s sv -> gcs (ps ++ [c]) -> length (ps ++ [c]) < WALK_FUEL ->
+  proj_res Linux (snd (o_remove o (abs_path (ps ++ [c])))) = snd (go_remove s sv (abs_path (ps ++ [c])))
+  /\ orel (fst (o_remove o (abs_path (ps ++ [c])))) (fst (go_remove s sv (abs_path (ps ++ [c])))) sv.
+Proof.
+  intros Hh Hr Hg Hl. pose proof Hg as Hg'. apply gcs_snoc_inv in Hg'. destruct Hg' as [Hps Hc].
+  pose proof (oh_admin _ _ Hh) as Hadm.
+  unfold o_remove, go_remove, k_unlink, k_rmdir.
+  rewrite (oabs_abs o s sv Hr _ Hg), (or_os _ _ _ Hr).
+  rewrite (klookup_par s sv Hh false ps c Hg Hl), (tpar_spec (f_heap s) ps (v_root (sv_view sv)) c).
+  rewrite (@abs_path_rpath (ps ++ [c])) by (destruct ps; discriminate).
+  rewrite (split_abs_rpath ps c) by (apply comp_ok_nosl; apply good_comp_ok'; exact Hc).
+  destruct (resolve4 o s sv Hh Hr ps c Hg) as [p px i x Ew Hp Hnp Hd El Hx Hnx|p px Ew Hp Hnp Hd El Hx|p px Ew Hp Hnp Hd Hx|Ew Hp Hx];
+    rewrite Hx, Ew.
+  - rewrite Hp, Hd, El. rewrite !(may_delete_admin _ _ p i _ Hadm Hd).
+    assert (Hip : i <> p) by (intros ->; exact (no_self_edge _ p c (oh_inv _ _ Hh) El)).
+    destruct (Nat.eqb_spec i p) as [E|_]; [congruence|].
+    rewrite (nrel_dir s sv Hh x i Hnx), (nrel_ch s sv Hh x i Hnx).
+    destruct (node_is_dir (f_heap s) i) eqn:Edi; cbn [andb].
+    + (* a directory *)
+      unfold dir_nonempty. rewrite children_get. destruct (get (f_heap s) i) as [[chi mi|? ? ? ?|? ?]|] eqn:Egi;
+        try (rewrite node_is_dir_get, Egi in Edi; discriminate).
+      cbn [node_children]. destruct chi as [|e chi].
+      * cbn [snd fst]. split; [reflexivity|].
+        eapply (orel_unlink o _ s _ sv ps c p i px x); try eassumption; try reflexivity.
+        rewrite children_get, Egi. reflexivity.
+      * cbn [snd fst N.eqb]. split; [reflexivity|exact Hr].
+    + (* a file *)
+      cbn [snd fst]. split; [reflexivity|].
+      assert (Hch : children (f_heap s) i = []) by (apply children_nondir; exact Edi).
+      eapply (orel_unlink o _ s _ sv ps c p i px x); try eassumption; try reflexivity.
+      cbn [with_heap f_heap]. unfold release.
+      assert (Hgi : get (remove_child (f_heap s) p c) i = get (f_heap s) i).
+      { unfold remove_child. destruct (get (f_heap s) p) as [[chp mp|? ? ? ?|? ?]|]; try reflexivity.
+        rewrite get_upd. destruct (Nat.eqb_spec i p); [congruence|reflexivity]. }
+      rewrite Hgi. destruct (get (f_heap s) i) as [[? ?|? ? ? ?|t m]|] eqn:Egi; try reflexivity.
+      exfalso. exact (oh_nosym _ _ Hh i t m Egi).
+  - rewrite Hd, El. cbn [snd fst N.eqb]. split; [|exact Hr].
+    rewrite (enf_rel o s sv Hh Hr _ ps c Hg), Ew, Hd. reflexivity.
+  - rewrite Hd. cbn [snd fst N.eqb]. split; [|exact Hr].
+    rewrite (enf_rel o s sv Hh Hr _ ps c Hg), Ew, Hd. reflexivity.
+  - cbn [snd fst]. split; [|exact Hr].
+    rewrite (enf_rel o s sv Hh Hr _ ps c Hg), Ew.
+    destruct (tfail_cases s ps (v_root (sv_view sv))) as [E|E]; rewrite E; reflexivity.
+Qed.
+
+(* ---- ReadFile ------------------------------------------------------------------------------------------------------ *)
+Lemma firstn_all_more (A : Type) (l : list A) n : length l <= n -> firstn n l = l.
+Proof. intros H. apply firstn_all2. exact H. Qed.
+
+Theorem orefa_step_read_file (o : ofs) (s : fsys) (sv : sview) (ps : list str) (c : str) :
+  ohyps s sv -> orel o s sv -> gcs (ps ++ [c]) -> length (ps ++ [c]) < WALK_FUEL ->
+  proj_res Linux (o_read_file o (abs_path (ps ++ [c]))) = go_read_file s sv (abs_path (ps ++ [c])).
+Proof.
+  intros Hh Hr Hg Hl. pose proof Hg as Hg'. apply gcs_snoc_inv in Hg'. destruct Hg' as [Hps Hc].
+  pose proof (oh_admin _ _ Hh) as Hadm.
+  unfold o_read_file, go_read_file, o_open_file, k_open.
+  change (to_open_mode 0) with OpenRead. change (decode_flags 0) with (OF 0 false false false false). cbv iota beta zeta.
+  change (has OpenRead OpenCreateExcl) with false. change (has OpenRead OpenCreate) with false.
+  change (has OpenRead OpenWrite) with false. change (has OpenRead OpenTruncate) with false.
+  change (acc_mask 0 false) with 4%N. change (negb (N.eqb (N.land 4 2) 0)) with false. cbn [negb andb orb].
+  rewrite (oabs_abs o s sv Hr _ Hg), (or_os _ _ _ Hr).
+  rewrite (klookup_down s sv Hh true ps c Hg Hl), (tdown_spec (f_heap s) ps (v_root (sv_view sv)) c).
+  rewrite (@abs_path_rpath (ps ++ [c])) by (destruct ps; discriminate).
+  rewrite (split_abs_rpath ps c) by (apply comp_ok_nosl; apply good_comp_ok'; exact Hc).
+  destruct (resolve4 o s sv Hh Hr ps c Hg) as [p px i x Ew Hp Hnp Hd El Hx Hnx|p px Ew Hp Hnp Hd El Hx|p px Ew Hp Hnp Hd Hx|Ew Hp Hx];
+    rewrite Hx, Ew.
+  - rewrite Hd, El. pose proof Hx as Hx'. apply ofind_some in Hx'. destruct Hx' as [_ Hoi].
+    destruct (get (f_heap s) i) as [[chi mi|d k id mi|t mi]|] eqn:Egi; cbn [nrel] in Hnx.
+    + destruct Hnx as (y & Ey & Hxd & Hxc & Hxm). inversion Ey; subst y. rewrite Hxd.
+      assert (Hdi : node_is_dir (f_heap s) i = true) by (rewrite node_is_dir_get, Egi; reflexivity).
+      rewrite (kperm_dir_admin (f_heap s) _ Hadm i 4 Hdi). cbn [negb]. rewrite Egi.
+      unfold of_read, o_prologue. cbn [new_handle hd_name hd_node].
+      destruct (rpath (ps ++ [c])) eqn:Ek; [exfalso; revert Ek; apply rpath_snoc_not_nil|].
+      rewrite Hoi, Hxd. unfold owin. rewrite (or_os _ _ _ Hr). cbn [ostype_eqb].
+      assert (Hz : Z.leb (Z.of_nat (length (on_ch x)) + 512) 0 = false) by (apply Z.leb_gt; lia).
+      rewrite Hz. reflexivity.
+    + destruct Hnx as (y & Ey & Hxd & Hxc & Hxk & Hxm & Hdata). inversion Ey; subst y. rewrite Hxd.
+      assert (Hkp : kperm (f_heap s) i 4 (v_user (sv_view sv)) = true) by (unfold kperm; rewrite Egi, Hadm; reflexivity).
+      rewrite Hkp. cbn [negb andb]. rewrite Egi.
+      unfold of_read, o_prologue. cbn [new_handle hd_name hd_node hd_mode hd_at o_with_heap o_with o_heap].
+      destruct (rpath (ps ++ [c])) eqn:Ek; [exfalso; revert Ek; apply rpath_snoc_not_nil|].
+      rewrite (oget_oupd _ _ _ _ _ Hoi), Nat.eqb_refl. unfold on_dir in *. cbn [on_with_data on_meta on_data]. rewrite Hxd.
+      assert (Hz : Z.leb (Z.of_nat (length (on_data x)) + 512) 0 = false) by (apply Z.leb_gt; lia).
+      rewrite Hz. change (has OpenRead OpenRead) with true. cbn [negb Z.to_nat skipn].
+      rewrite firstn_all_more by lia.
+      rewrite (Hdata (file_named s sv Hh p c i d k id mi El Egi)).
+      destruct (Z.eqb_spec (Z.of_nat (length d)) 0) as [E|_]; [|reflexivity].
+      destruct d; [reflexivity|cbn [length] in E; lia].
+    + exfalso. exact (oh_nosym _ _ Hh i t mi Egi).
+    + discriminate.
+  - rewrite Hp, Hd, El, (nrel_dir s sv Hh px p Hnp), Hd. reflexivity.
+  - rewrite Hp, Hd, (nrel_dir s sv Hh px p Hnp), Hd. reflexivity.
+  - rewrite Hp, (enf_rel o s sv Hh Hr _ ps c Hg), Ew.
+    destruct (tfail_cases s ps (v_root (sv_view sv))) as [E|E]; rewrite E; reflexivity.
+Qed.
+
+(* ---- ReadDir -------------------------------------------------------------------------------------------------------- *)
+Lemma insert_sorted_osim (x y : finfo) : forall (l1 l2 : list finfo),
+  info_osim x y -> Forall2 info_osim l1 l2 ->
+  Forall2 info_osim (insert_sorted (@fi_name) x l1) (insert_sorted (@fi_name) y l2).
+Proof.
+  intros l1 l2 Hxy Hl. induction Hl as [|a b l1 l2 Hab Hl IH]; cbn [insert_sorted].
+  - constructor; [exact Hxy|constructor].
+  - destruct Hab as (Hn & Hab'). destruct Hxy as (Hxn & Hxy'). rewrite Hn, Hxn.
+    destruct (str_ltb (fi_name b) (fi_name y)); constructor; try (split; assumption); auto.
+    constructor; [split; assumption|exact Hl].
+Qed.
+
+Lemma sort_by_osim (l1 l2 : list finfo) : Forall2 info_osim l1 l2 ->
+  Forall2 info_osim (sort_by (@fi_name) l1) (sort_by (@fi_name) l2).
+Proof.
+  intros H. unfold sort_by. induction H as [|a b l1 l2 Hab Hl IH]; cbn [fold_right]; [constructor|].
+  apply insert_sorted_osim; assumption.
+Qed.
+
+Theorem orefa_step_read_dir (o : ofs) (s : fsys) (sv : sview) (ps : list str) (c : str) :
+  ohyps s sv -> orel o s sv -> gcs (ps ++ [c]) -> length (ps ++ [c]) < WALK_FUEL ->
+  osim (proj_res Linux (o_read_dir o (abs_path (ps ++ [c])))) (go_read_dir s sv (abs_path (ps ++ [c]))).
+Proof.
+  intros Hh Hr Hg Hl. pose proof Hg as Hg'. apply gcs_snoc_inv in Hg'. destruct Hg' as [Hps Hc].
+  pose proof (oh_admin _ _ Hh) as Hadm.
+  unfold o_read_dir, go_read_dir, o_open_file, k_open.
+  change (to_open_mode 0) with OpenRead. change (decode_flags 0) with (OF 0 false false false false). cbv iota beta zeta.
+  change (has OpenRead OpenCreateExcl) with false. change (has OpenRead OpenCreate) with false.
+  change (has OpenRead OpenWrite) with false. change (has OpenRead OpenTruncate) with false.
+  change (acc_mask 0 false) with 4%N. change (negb (N.eqb (N.land 4 2) 0)) with false. cbn [negb andb orb].
+  rewrite (oabs_abs o s sv Hr _ Hg), (or_os _ _ _ Hr).
+  rewrite (klookup_down s sv Hh true ps c Hg Hl), (tdown_spec (f_heap s) ps (v_root (sv_view sv)) c).
+  rewrite (@abs_path_rpath (ps ++ [c])) by (destruct ps; discriminate).
+  rewrite (split_abs_rpath ps c) by (apply comp_ok_nosl; apply good_comp_ok'; exact Hc).
+  destruct (resolve4 o s sv Hh Hr ps c Hg) as [p px i x Ew Hp Hnp Hd El Hx Hnx|p px Ew Hp Hnp Hd El Hx|p px Ew Hp Hnp Hd Hx|Ew Hp Hx];
+    rewrite Hx, Ew.
+  - rewrite Hd, El. pose proof Hx as Hx'. apply ofind_some in Hx'. destruct Hx' as [_ Hoi].
+    destruct (get (f_heap s) i) as [[chi mi|d k id mi|t mi]|] eqn:Egi; cbn [nrel] in Hnx.
+    + destruct Hnx as (y & Ey & Hxd & Hxc & Hxm). inversion Ey; subst y. rewrite Hxd.
+      assert (Hdi : node_is_dir (f_heap s) i = true) by (rewrite node_is_dir_get, Egi; reflexivity).
+      rewrite (kperm_dir_admin (f_heap s) _ Hadm i 4 Hdi). cbn [negb]. rewrite Egi.
+      unfold of_read_dir, o_dir_read, o_prologue. cbn [new_handle hd_name hd_node hd_dir_infos hd_dir_index].
+      destruct (rpath (ps ++ [c])) eqn:Ek; [exfalso; revert Ek; apply rpath_snoc_not_nil|].
+      rewrite Hoi, Hxd. cbn [negb]. rewrite (dir_batch_all (-1)) by reflexivity. cbn [snd proj_res].
+      right. right. do 2 eexists. split; [reflexivity|]. split; [reflexivity|].
+      unfold o_dir_infos. apply sort_by_osim. rewrite Hxc.
+      assert (Hall : forall nm j, In (nm, j) chi -> edge (f_heap s) i nm j) by (intros; apply edge_get; eauto).
+      clear Egi Hxc. induction chi as [|[nm j] chi IH]; cbn [flat_map map fst snd]; [constructor|].
+      assert (Hej : edge (f_heap s) i nm j) by (apply Hall; left; reflexivity).
+      assert (Hjlt : j < length (f_heap s)) by (apply (I1_valid (oh_inv _ _ Hh) i nm j Hej)).
+      destruct (get_some (f_heap s) j Hjlt) as (nj & Hgj).
+      pose proof (or_node _ _ _ Hr j) as Hnj. rewrite Hgj in Hnj.
+      assert (Hoj : exists xj, oget (o_heap o) j = Some xj).
+      { destruct nj as [? ?|? ? ? ?|t m]; cbn [nrel] in Hnj.
+        - destruct Hnj as (y & Ey' & _). eauto.
+        - destruct Hnj as (y & Ey' & _). eauto.
+        - exfalso. exact (oh_nosym _ _ Hh j t m Hgj). }
+      destruct Hoj as (xj & Hoj). rewrite Hoj. cbn [app]. constructor.
+      * assert (Hl' : alookup str_eqb nm (children (f_heap s) i) = Some j).
+        { apply in_al; [apply (I2_names (oh_inv _ _ Hh) i)|exact Hej]. }
+        apply (fill_sim s sv Hh xj i nm j nm Hl'). rewrite Hoj in Hnj. rewrite Hgj. exact Hnj.
+      * apply IH. intros nm' j' Hin. apply Hall. right. exact Hin.
+    + destruct Hnx as (y & Ey & Hxd & Hxc & Hxk & Hxm & Hdata). inversion Ey; subst y. rewrite Hxd.
+      assert (Hkp : kperm (f_heap s) i 4 (v_user (sv_view sv)) = true) by (unfold kperm; rewrite Egi, Hadm; reflexivity).
+      rewrite Hkp. cbn [negb andb]. rewrite Egi.
+      unfold of_read_dir, o_dir_read, o_prologue. cbn [new_handle hd_name hd_node o_with_heap o_with o_heap].
+      destruct (rpath (ps ++ [c])) eqn:Ek; [exfalso; revert Ek; apply rpath_snoc_not_nil|].
+      rewrite (oget_oupd _ _ _ _ _ Hoi), Nat.eqb_refl. unfold on_dir in *. cbn [on_with_data on_meta]. rewrite Hxd.
+      left. reflexivity.
+    + exfalso. exact (oh_nosym _ _ Hh i t mi Egi).
+    + discriminate.
+  - rewrite Hp, Hd, El, (nrel_dir s sv Hh px p Hnp), Hd. left. reflexivity.
+  - rewrite Hp, Hd, (nrel_dir s sv Hh px p Hnp), Hd. left. reflexivity.
+  - rewrite Hp, (enf_rel o s sv Hh Hr _ ps c Hg), Ew. left.
+    destruct (tfail_cases s ps (v_root (sv_view sv))) as [E|E]; rewrite E; reflexivity.
+Qed.
+
+(* ---- WriteFile of a new name ------------------------------------------------------------------------------------------ *)
+Lemma twalk_children_ext h h' : (forall d, children h' d = children h d) -> forall cs d, twalk h' d cs = twalk h d cs.
+Proof.
+  intros He cs. induction cs as [|x r IH]; intros d; cbn [twalk]; [reflexivity|]. rewrite He.
+  destruct (alookup str_eqb x (children h d)); [apply IH|reflexivity].
+Qed.
+
+Lemma orel_set_data (o : ofs) (s : fsys) (sv : sview) (i : nat) (x : onode) (d d' : list N) (k : Z) (id : N) (m : meta) :
+  orel o s sv -> get (f_heap s) i = Some (NFile d k id m) -> oget (o_heap o) i = Some x ->
+  orel (o_with_heap o (oupd (o_heap o) i (on_with_data x d'))) (with_heap s (upd (f_heap s) i (NFile d' k id m))) sv.
+Proof.
+  intros Hr Hg Ho. pose proof (or_node _ _ _ Hr i) as Hn. rewrite Ho, Hg in Hn. cbn [nrel] in Hn.
+  destruct Hn as (y & Ey & Hd & Hc & Hk & Hm & _). inversion Ey; subst y.
+  assert (Hilt : i < length (f_heap s)) by (eapply get_lt; exact Hg).
+  assert (Hch : forall e, children (upd (f_heap s) i (NFile d' k id m)) e = children (f_heap s) e).
+  { intros e. rewrite children_upd. destruct (Nat.eqb_spec e i) as [->|_]; [|reflexivity].
+    destruct (Nat.ltb_spec i (length (f_heap s))); [|lia]. cbn [node_children]. rewrite children_get, Hg. reflexivity. }
+  constructor; cbn [o_with_heap o_with o_os o_user o_umask o_index o_heap with_heap f_heap].
+  - apply (or_os _ _ _ Hr).
+  - apply (or_user _ _ _ Hr).
+  - apply (or_umask _ _ _ Hr).
+  - apply (or_slash _ _ _ Hr).
+  - intros cs Hcs. rewrite (twalk_children_ext _ _ Hch). apply (or_index _ _ _ Hr cs Hcs).
+  - rewrite oupd_length, upd_length. apply (or_len _ _ _ Hr).
+  - intros j. rewrite (oget_oupd _ _ _ _ _ Ho), get_upd. destruct (Nat.eqb_spec i j) as [<-|Hij].
+    + rewrite Nat.eqb_refl. destruct (Nat.ltb_spec i (length (f_heap s))); [|lia]. cbn [nrel].
+      eexists. split; [reflexivity|]. unfold on_dir in *. cbn [on_with_data on_meta on_ch on_nlink on_data]. auto 7.
+    + destruct (Nat.eqb_spec j i); [congruence|]. apply (or_node _ _ _ Hr j).
+Qed.
+
+Lemma file_mode_not_dir perm um : has (N.lor 0 (N.ldiff (N.land perm FILE_MODE_MASK) um)) MODE_DIR = false.
+Proof.
+  rewrite has_mode_dir_testbit, N.lor_0_l, N.ldiff_spec, N.land_spec.
+  assert (E : N.testbit FILE_MODE_MASK 31 = false) by (vm_compute; reflexivity). rewrite E, andb_false_r. reflexivity.
+Qed.
+
+Theorem orefa_step_write_file_new (o : ofs) (s : fsys) (sv : sview) (ps : list str) (c : str) (data : list N) (perm : N) :
+  ohyps s sv -> orel o s sv -> gcs (ps ++ [c]) -> length (ps ++ [c]) < WALK_FUEL ->
+  twalk (f_heap s) (v_root (sv_view sv)) (ps ++ [c]) = None ->
+  proj_res Linux (snd (o_write_file o (abs_path (ps ++ [c])) data perm)) = snd (go_write_file s sv (abs_path (ps ++ [c])) data perm)
+  /\ orel (fst (o_write_file o (abs_path (ps ++ [c])) data perm)) (fst (go_write_file s sv (abs_path (ps ++ [c])) data perm)) sv.
+Proof.
+  intros Hh Hr Hg Hl Hnew. pose proof Hg as Hg'. apply gcs_snoc_inv in Hg'. destruct Hg' as [Hps Hc].
+  pose proof (oh_admin _ _ Hh) as Hadm.
+  unfold o_write_file, go_write_file, o_open_file, k_open.
+  change (to_open_mode (O_WRONLY + O_CREATE + O_TRUNC)) with 82%N.
+  change (decode_flags (O_WRONLY + O_CREATE + O_TRUNC)) with (OF 1 true false true false). cbv iota beta zeta.
+  change (has 82 OpenCreate) with true. change (has 82 OpenCreateExcl) with false. cbn [negb].
+  rewrite (oabs_abs o s sv Hr _ Hg), (or_os _ _ _ Hr).
+  rewrite (klookup_par s sv Hh false ps c Hg Hl), (tpar_spec (f_heap s) ps (v_root (sv_view sv)) c).
+  rewrite (klookup_down s sv Hh true ps c Hg Hl), (tdown_spec (f_heap s) ps (v_root (sv_view sv)) c).
+  rewrite (@abs_path_rpath (ps ++ [c])) by (destruct ps; discriminate).
+  rewrite (split_abs_rpath ps c) by (apply comp_ok_nosl; apply good_comp_ok'; exact Hc).
+  destruct (resolve4 o s sv Hh Hr ps c Hg) as [p px i x Ew Hp Hnp Hd El Hx Hnx|p px Ew Hp Hnp Hd El Hx|p px Ew Hp Hnp Hd Hx|Ew Hp Hx].
+  - exfalso. rewrite twalk_snoc, Ew, El in Hnew. discriminate.
+  - rewrite Hx, Ew, Hp, Hd, El, (nrel_dir s sv Hh px p Hnp), Hd. cbn [negb].
+    rewrite (kperm_dir_admin (f_heap s) _ Hadm p 3 Hd). cbn [negb].
+    unfold o_create_file, o_create_node, alloc_child.
+    pose proof Hp as Hp'. apply ofind_some in Hp'. destruct Hp' as [Hip Hop]. rewrite Hop.
+    rewrite (nrel_meta s sv Hh px p Hnp), (or_os _ _ _ Hr), (or_umask _ _ _ Hr), (or_user _ _ _ Hr). cbn [file_mode].
+    rewrite file_mode_not_dir, andb_false_r.
+    set (km := kmeta (f_heap s) p (sv_view sv) 0 (N.land perm FILE_MODE_MASK) false).
+    set (nf := NFile [] 1 (f_last_id s + 1) km).
+    set (nd_o := {| on_ch := []; on_data := []; on_nlink := 1; on_id := (o_last_id o + 1)%N;
+                    on_meta := {| m_mode := N.lor 0 (N.ldiff (N.land perm FILE_MODE_MASK) (v_umask (sv_view sv)));
+                                  m_uid := us_uid (v_user (sv_view sv));
+                                  m_gid := if has (m_mode (meta_of (f_heap s) p)) MODE_SETGID
+                                           then m_gid (meta_of (f_heap s) p) else us_gid (v_user (sv_view sv)) |} |}).
+    set (o1 := {| o_index := aset str_eqb (rpath (ps ++ [c])) (length (o_heap o)) (o_index o);
+                  o_heap := o_add_child (o_heap o ++ [nd_o]) p c (length (o_heap o));
+                  o_last_id := (o_last_id o + 1)%N; o_cwd := o_cwd o; o_user := v_user (sv_view sv); o_umask := v_umask (sv_view sv); o_os := Linux |}).
+    set (s1 := {| f_heap := add_child (f_heap s ++ [nf]) p c (length (f_heap s)); f_last_id := (f_last_id s + 1)%N; f_vols := f_vols s |}).
+    assert (Hmeta : on_meta nd_o = km).
+    { unfold nd_o, km, kmeta, new_owner_gid, is_setgid. cbn [on_meta andb]. reflexivity. }
+    assert (Hnn : nrel (Some nd_o) (Some nf)).
+    { unfold nf. cbn [nrel]. exists nd_o. split; [reflexivity|]. unfold on_dir. rewrite Hmeta.
+      split; [unfold km, kmeta; cbn [m_mode andb]; apply file_mode_not_dir|]. auto 6. }
+    assert (Hr1 : orel o1 s1 sv).
+    { eapply (orel_create o o1 s s1 sv ps c p px nd_o nf); try eassumption; try reflexivity;
+        cbn [o1 o_os o_user o_umask]; symmetry; [apply (or_os _ _ _ Hr)|apply (or_user _ _ _ Hr)|apply (or_umask _ _ _ Hr)]. }
+    assert (Hplt : p < length (f_heap s)). { rewrite node_is_dir_get in Hd. destruct (get (f_heap s) p) eqn:E; [|discriminate]. eapply get_lt; eauto. }
+    assert (Hg1 : get (f_heap s1) (length (f_heap s)) = Some nf).
+    { unfold s1. cbn [f_heap]. unfold add_child. rewrite get_app_old by exact Hplt.
+      destruct (get (f_heap s) p) as [[chp mp|? ? ? ?|? ?]|] eqn:Egp; try (rewrite node_is_dir_get, Egp in Hd; discriminate).
+      rewrite get_upd. destruct (Nat.eqb_spec (length (f_heap s)) p); [lia|]. apply get_app_new. }
+    assert (Ho1 : oget (o_heap o1) (length (o_heap o)) = Some nd_o).
+    { unfold o1. cbn [o_heap]. unfold o_add_child. rewrite (oget_app_some _ nd_o _ _ Hop).
+      rewrite oget_oupd_neq by (rewrite (or_len _ _ _ Hr); lia). apply oget_app_new. }
+    fold s1. rewrite Hg1. unfold nf. cbv iota.
+    unfold of_write, o_prologue. cbn [new_handle hd_name hd_node hd_mode hd_at].
+    destruct (rpath (ps ++ [c])) as [|k0 kr] eqn:Ek; [exfalso; revert Ek; apply rpath_snoc_not_nil|]. rewrite <- Ek in *.
+    fold o1. rewrite Ho1.
+    assert (Hndd : on_dir nd_o = false) by (unfold on_dir; rewrite Hmeta; unfold km, kmeta; cbn [m_mode andb]; apply file_mode_not_dir).
+    rewrite Hndd. change (has 82 OpenWrite) with true. change (has 82 OpenAppend) with false. cbn [negb orb].
+    unfold drop_privs. rewrite Hadm.
+    destruct data as [|b0 data'].
+    + cbn [snd fst]. split; [reflexivity|].
+      assert (Hsame : upd (f_heap s1) (length (f_heap s)) (NFile [] 1 (f_last_id s + 1) km) = f_heap s1).
+      { clear -Hg1. unfold nf in Hg1. revert Hg1. generalize (f_heap s1) (length (f_heap s)).
+        intros hh n. revert n. induction hh as [|a hh IH]; intros [|n] Hg; cbn [upd get nth_error] in *; try discriminate.
+        - inversion Hg. reflexivity.
+        - f_equal. apply IH. exact Hg. }
+      rewrite Hsame. exact Hr1.
+    + cbn [snd fst]. split; [reflexivity|].
+      cbn [Z.to_nat]. unfold write_at_data. cbn [length Nat.ltb Nat.leb firstn app skipn on_data].
+      rewrite (or_len _ _ _ Hr) in Ho1 |- *. change (on_data nd_o) with (@nil N). rewrite skipn_nil, app_nil_r.
+      apply (orel_set_data o1 s1 sv (length (f_heap s)) nd_o [] (b0 :: data') 1 (f_last_id s + 1) km Hr1 Hg1 Ho1).
+  - rewrite Hx, Ew, Hp, Hd, (nrel_dir s sv Hh px p Hnp), Hd. cbn [negb snd fst]. split; [reflexivity|exact Hr].
+  - rewrite Hx, Ew, Hp. cbn [snd fst]. split; [|exact Hr].
+    rewrite (enf_rel o s sv Hh Hr _ ps c Hg), Ew.
+    destruct (tfail_cases s ps (v_root (sv_view sv))) as [E|E]; rewrite E; reflexivity.
+Qed.
